@@ -222,6 +222,22 @@ func (t *tr) leanType(n ast.Node, ty types.Type) string {
 	return t.fail(n, "unsupported type "+ty.String())
 }
 
+// Go identifiers that are reserved words of Lean get a trailing underscore.
+var leanReserved = map[string]bool{"end": true, "from": true, "at": true, "fun": true, "do": true, "then": true, "else": true, "let": true, "have": true,
+	"show": true, "match": true, "with": true, "in": true, "def": true, "theorem": true, "open": true, "namespace": true, "section": true, "variable": true,
+	"instance": true, "structure": true, "class": true, "where": true, "by": true, "if": true, "Type": true, "Prop": true, "Sort": true, "local": true,
+	"macro": true, "syntax": true, "mutual": true, "deriving": true, "import": true, "export": true, "private": true, "protected": true, "return": true,
+	"for": true, "unless": true, "try": true, "catch": true, "finally": true, "mut": true, "some": true, "none": true, "true": true, "false": true,
+	"using": true, "calc": true, "suffices": true, "obtain": true, "example": true, "abbrev": true, "inductive": true, "universe": true, "set_option": true,
+	"attribute": true, "extends": true, "fix": true, "notation": true, "infix": true, "prefix": true, "postfix": true, "nomatch": true, "nofun": true}
+
+func leanIdent(n string) string {
+	if leanReserved[n] {
+		return n + "_"
+	}
+	return n
+}
+
 func bytesLit(s string) string {
 	var b []string
 	for _, c := range []byte(s) {
@@ -296,7 +312,7 @@ func (t *tr) expr(e ast.Expr) string {
 				return t.fail(x, "package-level variable "+x.Name)
 			}
 		}
-		return x.Name
+		return leanIdent(x.Name)
 	case *ast.SelectorExpr:
 		if n, ok := t.selName(x); ok {
 			t.addParam(n, t.leanType(x, t.typeOf(x)))
@@ -705,7 +721,7 @@ func (t *tr) stmts(ss []ast.Stmt, used map[string]int, ind string) string {
 					zero = "false"
 				}
 				lt := t.leanType(vs, ty)
-				return ind + "let " + vs.Names[0].Name + " : " + lt + " := " + zero + "\n" + t.stmts(rest, used, ind)
+				return ind + "let " + leanIdent(vs.Names[0].Name) + " : " + lt + " := " + zero + "\n" + t.stmts(rest, used, ind)
 			}
 		}
 		return ind + t.fail(x, "declaration")
@@ -734,7 +750,7 @@ func (t *tr) stmts(ss []ast.Stmt, used map[string]int, ind string) string {
 		var name string
 		switch l := x.Lhs[0].(type) {
 		case *ast.Ident:
-			name = l.Name
+			name = leanIdent(l.Name)
 		case *ast.SelectorExpr:
 			n, ok := t.selName(l)
 			if !ok {
@@ -962,7 +978,7 @@ func translate(repo string, tg target) (string, error) {
 				t.ptrs[n.Name] = true
 				continue
 			}
-			t.addParam(n.Name, t.leanType(n, ty))
+			t.addParam(leanIdent(n.Name), t.leanType(n, ty))
 		}
 	}
 	var rtypes []string
@@ -991,7 +1007,7 @@ func translate(repo string, tg target) (string, error) {
 	declared := 0
 	for _, f := range fd.Type.Params.List {
 		for _, n := range f.Names {
-			if _, ok := t.ptypes[n.Name]; ok {
+			if _, ok := t.ptypes[leanIdent(n.Name)]; ok {
 				declared++
 			}
 		}
